@@ -28,6 +28,22 @@ pub fn fnv(data: &[u8]) -> u64 {
     h
 }
 
+/// root of the verification tree (normally /verif; LSMV_ROOT lets a background snapshot run in place)
+pub fn verif_root() -> PathBuf {
+    match std::env::var("LSMV_ROOT") {
+        Ok(s) if !s.is_empty() => PathBuf::from(s),
+        _ => PathBuf::from("/verif"),
+    }
+}
+
+/// re-base an absolute "/verif/..." path onto `verif_root()`
+pub fn rebase(p: &str) -> PathBuf {
+    match p.strip_prefix("/verif/") {
+        Some(rest) => verif_root().join(rest),
+        None => PathBuf::from(p),
+    }
+}
+
 pub fn scratch_root() -> PathBuf {
     let base = if Path::new("/dev/shm").is_dir() {
         PathBuf::from("/dev/shm")
